@@ -260,6 +260,24 @@ def missing_entry_refused(ctx, b, lookups, var):
     return [c for c in lookups if c.bb in bad or c.bb not in good]
 
 
+# StreamsState::stream_recv_freed(id, recv) is `free_recv.push(recv.free(window)); stream_freed(id, StreamHalf::Recv)`.  The
+# first statement recycles an allocation (no observable state of the stream); the effect this property needs is the second
+# one: the Recv half of `id` is reported as gone to the concurrency accounting.  So "the receive half is freed" is stated
+# structurally as: a call of stream_recv_freed, OR a call of stream_freed whose `half` argument is the literal StreamHalf::Recv.
+RECV_FREERS = ['StreamsState::received', 'StreamsState::received_reset', 'RecvStream::stop', 'RecvStream::received_reset', 'Chunks::next']
+
+
+def _half_lit(F, c):
+    """'Send' / 'Recv' when the `half` argument of a stream_freed call site is the literal variant, else None"""
+    return _variant_lit(arg_desc(F, c, 2), 'StreamHalf')
+
+
+def recv_half_freed_sites(F, body):
+    """call sites of `body` freeing the receive half: stream_recv_freed(..) or (inlined) stream_freed(_, StreamHalf::Recv)"""
+    return list(body.calls_to('StreamsState::stream_recv_freed')) + \
+        [c for c in body.calls_to('StreamsState::stream_freed') if _half_lit(F, c) == 'Recv']
+
+
 def rule_a(ctx):
     F = ctx.facts
     STATE = 'send::SendState'
@@ -380,7 +398,13 @@ def rule_a(ctx):
     # SendStream::reset: ResetSent -> ClosedStream, decided before Send::reset
     rs = ctx.pfn('SendStream::reset')
     rrets = rs.return_blocks()
+    # the reset itself: the call of Send::reset, or its effect stated structurally when the helper's body sits in the
+    # caller: a store of the literal SendState::ResetSent into the `state` field of the half.  (Send::reset is
+    # `if state is DataSent|Ready { state = ResetSent }`; a guard around the inlined store is judged by the two checks
+    # below exactly like a guard around the call: its skip edge must be the ResetSent edge of a test of the state.)
     sr = [c.bb for c in rs.calls_to('Send::reset')]
+    sr += [x.bb for x, v in store_values(ctx, 'send::Send', 'state', in_fn=rs)
+           if x.body.id == rs.id and _variant_lit(v, STATE) == 'ResetSent' and x.bb not in sr]
     closed = effect_blocks(ctx, rs, variant=('ClosedStream', 'ClosedStream'))
     refused = []        # (branch, target taken when the state is ResetSent)
     for b in branches(F, rs):
@@ -539,11 +563,12 @@ def rule_c(ctx):
         ctx.check(not bad, 'c', 'refused_read_leaves_stream_in_table', cn, x.where(), 'no error exit after the Recv left the stream table',
                   'Chunks::new can still fail after it removed the stream from `streams.recv` (the Recv is dropped: the stream reports ClosedStream without a terminal outcome and its slot is never released)')
     nx = ctx.pfn('Chunks::next')
-    freed = nx.calls_to('StreamsState::stream_recv_freed')
+    freed = recv_half_freed_sites(F, nx)
+    inl = {c.bb for c in freed if not c.is_('StreamsState::stream_recv_freed')}
     ctx.floor('c', 'terminal_free_sites', len(freed), 2)
     for var in ('Finished', 'Reset'):
         cons = [c for c in constructions(F, 'recv::ChunksState', var, crate='quinn_proto') if F.root_of(c.body).id == nx.id]
-        ok = bool(cons) and all(must_follow(F, nx, c.bb, ['StreamsState::stream_recv_freed'], depth=0) is None for c in cons)
+        ok = bool(cons) and all(must_follow(F, nx, c.bb, ['StreamsState::stream_recv_freed'], depth=0, extra_blocks=inl) is None for c in cons)
         ctx.check(ok, 'c', 'terminal_outcome_frees_recv_half_' + var.lower(), nx, nx.where(), 'state=%s then stream_recv_freed on every path' % var, 'terminal outcome %s does not always free the receive half' % var)
     # Recv::stop twice -> ClosedStream
     rs = ctx.pfn('Recv::stop')
@@ -557,16 +582,34 @@ def rule_c(ctx):
     bc = [b for b in branches(F, rr) if b.desc[0] == 'discr' and D.has_call(b.desc[1], 'Recv::reset_code')]
     ok = bool(bs) and bool(bc) and all(any(rr.dominates(s.bb, c.bb) for s in bs) for c in bc)
     ctx.check(ok, 'c', 'stopped_checked_before_reset_code', rr, rr.where(), 'if s.stopped {ClosedStream} dominates reset_code() test', 'received_reset() on a stopped stream can answer Ok(None) instead of ClosedStream')
-    fr = rr.calls_to('StreamsState::stream_recv_freed')
+    fr = recv_half_freed_sites(F, rr)
     ok = bool(fr) and bool(bc) and all(all(f.bb in rr.reachable_from(b.target(1)) and f.bb not in rr.reachable_from(b.target(0)) for f in fr) for b in bc)
     ctx.check(ok, 'c', 'reset_observed_frees_recv_half', rr, rr.where(), 'Some(code) -> stream_recv_freed', 'observing the reset does not free the stream exactly on the Some(code) edge')
 
 
 def rule_d(ctx):
     F = ctx.facts
-    who_may_call(ctx, 'd', 'stream_freed_callers', ['StreamsState::stream_freed'], ['StreamsState::reset_acked', 'StreamsState::received_ack_of', 'StreamsState::stream_recv_freed'], floor=3)
-    who_may_call(ctx, 'd', 'stream_recv_freed_callers', ['StreamsState::stream_recv_freed'],
-                 ['StreamsState::received', 'StreamsState::received_reset', 'RecvStream::stop', 'RecvStream::received_reset', 'Chunks::next'], floor=5)
+    # callers of stream_freed: the two Send-half terminal edges, stream_recv_freed, and -- stream_recv_freed inlined -- a call
+    # with the literal half StreamHalf::Recv from a function that may call stream_recv_freed
+    allowed = ['StreamsState::reset_acked', 'StreamsState::received_ack_of', 'StreamsState::stream_recv_freed']
+    n = inlined = 0
+    for c in F.callers_of('StreamsState::stream_freed', crate='quinn_proto'):
+        if is_noise(c):
+            continue
+        n += 1
+        r = F.root_of(c.body)
+        if root_matches(ctx, c.body, allowed):
+            ctx.ok('d', 'stream_freed_callers', r, c.where(), 'call of %s from allowed caller' % short(c.f))
+        elif root_matches(ctx, c.body, RECV_FREERS) and _half_lit(F, c) == 'Recv':
+            inlined += 1
+            ctx.ok('d', 'stream_freed_callers', r, c.where(), 'stream_freed(_, StreamHalf::Recv): stream_recv_freed inlined into one of its allowed callers')
+        else:
+            ctx.bad('d', 'stream_freed_callers/unexpected_caller', r, c.where(),
+                    'call of %s (half %s) from %s, allowed callers are %s (and, with the literal half Recv, %s). ' % (short(c.f), _half_lit(F, c), r.short, sorted(allowed), sorted(RECV_FREERS)))
+    ctx.floor('d', 'stream_freed_callers', n, 3)
+    sites = who_may_call(ctx, 'd', 'stream_recv_freed_callers', ['StreamsState::stream_recv_freed'], RECV_FREERS)
+    # five places free a receive half (by the call or by its inlined form)
+    ctx.floor('d', 'stream_recv_freed_callers', len([c for c in sites if not is_noise(c)]) + inlined, 5)
     sf = ctx.pfn('StreamsState::stream_freed')
     dec = [(w, v) for w, v in store_values(ctx, SS, 'allocated_remote_count', in_fn=sf)]
     ctx.floor('d', 'slot_release_sites', len(dec), 1)
@@ -593,7 +636,12 @@ def rule_d(ctx):
                 okh = True
         ctx.check(okh, 'd', 'slot_release_tests_the_other_half', sf, w.where(), 'Send half freed -> !recv.contains_key(id); Recv half freed -> !send.contains_key(id)',
                   'stream_freed tests the wrong map for one half: a remote bidirectional stream stops counting while its other half is still live')
-        es = must_follow(F, sf, w.bb, ['StreamsState::ensure_remote_streams'], depth=0)
+        # the store is a statement, a call is the terminator of its block: when the block of the store itself ends in the
+        # ensure_remote_streams call (no intervening call such as `id.dir()` splits the two) the call follows the store
+        if w.bb in must_sites(F, sf, ['StreamsState::ensure_remote_streams'], 0):
+            es = None
+        else:
+            es = must_follow(F, sf, w.bb, ['StreamsState::ensure_remote_streams'], depth=0)
         ctx.check(es is None, 'd', 'slot_release_reissues_credit', sf, w.where(), 'followed by ensure_remote_streams', 'released slot is not followed by ensure_remote_streams')
     ss = [(w, v) for w, v in store_values(ctx, SS, 'send_streams', in_fn=sf)]
     for w, v in ss:
